@@ -57,24 +57,27 @@ func (t *websocketTransport) Send(ctx context.Context, e envelope) error {
 		panic("nil envelope")
 	}
 
-	if err := t.ensureOpen(); err != nil {
-		return err
+	// The connection is kept in a local variable, since the transport may be closed
+	// by another goroutine (which clears the field) while the envelope is being sent.
+	conn := t.conn
+	if conn == nil {
+		return errors.New("transport is not open")
 	}
 
 	errChan := make(chan error)
 	go func() {
-		errChan <- t.conn.WriteJSON(e)
+		errChan <- conn.WriteJSON(e)
 	}()
 
 	select {
 	case <-ctx.Done():
 		// Effectively fails all pending write operations before returning.
 		// Note that this makes the encoder to be in a permanent error state.
-		_ = t.conn.SetWriteDeadline(time.Now())
+		_ = conn.SetWriteDeadline(time.Now())
 		// The write deadline of the websocket connection is only taken into account by the next
 		// write operation, so the deadline of the underlying connection is also set, for
 		// interrupting a write that is blocked (when the remote party is not reading).
-		_ = t.conn.UnderlyingConn().SetWriteDeadline(time.Now())
+		_ = conn.UnderlyingConn().SetWriteDeadline(time.Now())
 		<-errChan
 		return fmt.Errorf("ws transport: send: %w", ctx.Err())
 	case err := <-errChan:
@@ -90,15 +93,18 @@ func (t *websocketTransport) Receive(ctx context.Context) (envelope, error) {
 		panic("nil context")
 	}
 
-	if err := t.ensureOpen(); err != nil {
-		return nil, err
+	// The connection is kept in a local variable, since the transport may be closed
+	// by another goroutine (which clears the field) while the envelope is being received.
+	conn := t.conn
+	if conn == nil {
+		return nil, errors.New("transport is not open")
 	}
 
 	rawChan := make(chan rawEnvelope)
 	errChan := make(chan error)
 	go func() {
 		var raw rawEnvelope
-		if err := t.conn.ReadJSON(&raw); err != nil {
+		if err := conn.ReadJSON(&raw); err != nil {
 			errChan <- err
 		} else {
 			rawChan <- raw
@@ -109,7 +115,7 @@ func (t *websocketTransport) Receive(ctx context.Context) (envelope, error) {
 	case <-ctx.Done():
 		// Effectively fails all pending read operations before returning.
 		// Note that this makes the decoder to be in a permanent error state.
-		_ = t.conn.SetReadDeadline(time.Now())
+		_ = conn.SetReadDeadline(time.Now())
 		// wait for the error of the envelope result (which will be discarded)
 		select {
 		case <-errChan:
